@@ -223,6 +223,35 @@ class ShapeInterp:
             elif isinstance(st, ast.Return):
                 ret[0] = self.ev(st.value, env, fn, depth) if st.value is not None else None
                 return
+            elif isinstance(st, ast.For) and not st.orelse and not any(
+                    isinstance(n, (ast.Break, ast.Continue, ast.Return)) for n in ast.walk(st)):
+                # shapes do not depend on how often a loop runs: one abstract turn with the loop variables bound to
+                # an element (a label / a scalar / a row) of what is iterated
+                it = st.iter
+                idx_name = None
+                tgt = st.target
+                if isinstance(it, ast.Call) and ast.unparse(it.func) == "enumerate" and len(it.args) == 1 and \
+                        isinstance(tgt, ast.Tuple) and len(tgt.elts) == 2 and \
+                        all(isinstance(x, ast.Name) for x in tgt.elts):
+                    idx_name, tgt, it = tgt.elts[0].id, tgt.elts[1], it.args[0]
+                if not isinstance(tgt, ast.Name):
+                    raise Undecided("loop target `%s`" % ast.unparse(st.target))
+                try:
+                    seq = self.ev(it, env, fn, depth)
+                except Undecided:
+                    seq = None
+                if isinstance(seq, Arr) and len(seq.shape) >= 1:
+                    elem = Arr(seq.shape[1:])
+                elif isinstance(seq, ListOf):
+                    elem = seq.elem
+                else:
+                    elem = SCALAR
+                env[tgt.id] = elem
+                if idx_name is not None:
+                    env[idx_name] = SCALAR
+                self._block(fn, st.body, env, ret, depth)
+                if ret[0] is not None:
+                    raise Undecided("return inside a loop")
             else:
                 raise Undecided("statement `%s`" % ast.unparse(st)[:60])
 
@@ -341,6 +370,15 @@ class ShapeInterp:
                                                                                 and x.value is None):
                     out.append(ONE)
                 else:
+                    # an index array selects along its axis (one entry per index), a scalar removes the axis
+                    iv = None
+                    if not isinstance(x, ast.Constant):
+                        try:
+                            iv = self.ev(x, env, fn, depth)
+                        except Undecided:
+                            iv = None
+                    if isinstance(iv, Arr) and len(iv.shape) == 1:
+                        out.append(iv.shape[0])
                     axis += 1
             out.extend(base.shape[axis:])
             return Arr(out)
